@@ -33,7 +33,7 @@ def mc_all(cfg_suffix, fams=FAMS, cfg_override=None):
 
 def run_direct_property(prop, eps, sizes, nrandom, want_default, extra_must=None, mc_suffix=None,
                         cfg_override=None, lifts=1, evidence_extra=None, reject_is_violation=None,
-                        rows_fn=None, fams=FAMS, decl_filter=None, nshards=4, const_twins=False, extra_mc=()):
+                        rows_fn=None, fams=FAMS, decl_filter=None, nshards=4, const_twins=False, extra_mc=(), sweeps=False):
     """Generic driver: model-check the four family slices, replay a seeded sample of the TLC-enumerated
     declarations (every enumerated input and more) into freshly generated code, validate the recorded
     trace against the specification."""
@@ -94,6 +94,41 @@ def run_direct_property(prop, eps, sizes, nrandom, want_default, extra_must=None
         all_decls.extend(alive_decls)
         if alive_decls:
             samples_out.append({"family": fam, "declaration": CV.describe_decl(alive_decls[0]).strip().splitlines()[-8:]})
+    # ---- exhaustive sweeps (thorough tier): all values of 8/16-bit integer types, all 2^32 f32 bit patterns
+    sweep_info = {}
+    if sweeps and (T == "thorough" or os.environ.get("VERIF_SWEEP_TEST")):
+        import copy
+        test = bool(os.environ.get("VERIF_SWEEP_TEST")) and T != "thorough"
+        elig_f = [d for d in all_decls if d["fam"] == "float" and d["ty"] == "f32" and d["vmode"] in ("std", "none") and not d.get("const_fn")]
+        elig_i = [d for d in all_decls if d["fam"] == "int" and d["ty"] in ("i8", "u8", "i16", "u16") and d["vmode"] in ("std", "none") and not d.get("const_fn")]
+        pick = rng.sample(elig_f, min(len(elig_f), 4 if test else 24)) + rng.sample(elig_i, min(len(elig_i), 6 if test else 60))
+        sw = []
+        for d in pick:
+            c = copy.deepcopy({k: v for k, v in d.items() if k != "_phi"})
+            c["id"] = d["id"] + "_sw"
+            sw.append(c)
+
+        def sweep_rows(d):
+            marks = set()
+            for s_ in d["san"]:
+                marks.update(s_["p"])
+            for r_ in d["val"]:
+                if r_["k"] in ("greater", "greater_or_equal", "less", "less_or_equal"):
+                    marks.add(r_["b"])
+                marks.update(r_["p"])
+            marks.add(0)
+            inp = {"marks": [VL.enc_value(d, v) for v in sorted(marks)]}
+            if d["fam"] == "float":
+                inp.update({"from": 0, "to": (1 << 26) if test else (1 << 32), "threads": 4})
+            return [{"d": d["id"], "ep": "sweep", "ins": [inp]}]
+        if sw:
+            VL.sweep_stats.clear()
+            obs, rejected, alive = CV.build_and_run(prop.lower() + "_sweep", sw, sweep_rows, ["serde", "regex"], ["serde", "regex"], nshards=4, release=True)
+            alive_sw = [d for d in sw if d["id"] in set(alive)]
+            CV.judge_trace(prop, verdict, prop.lower() + "_sweep", alive_sw, obs, stats)
+            sweep_info = {"declarations": len(alive_sw), "constructor_calls": VL.sweep_stats.get("calls", 0),
+                          "cell_classes_observed": VL.sweep_stats.get("cell_classes", 0),
+                          "domains": "every value of i8/u8/i16/u16; every one of the 2^32 f32 bit patterns" if not test else "TEST RANGE (2^26 patterns)"}
     if not_evaluated:
         verdict.notes.append("%d declarations did not compile and were not evaluated: %s" % (
             len(not_evaluated), json.dumps(dict(list(not_evaluated.items())[:3]))[:400]))
@@ -117,6 +152,9 @@ def run_direct_property(prop, eps, sizes, nrandom, want_default, extra_must=None
     }
     if extra_runs:
         cov["additional_model_checking_runs"] = extra_runs
+    if sweep_info:
+        cov["exhaustive_sweeps"] = sweep_info
+        cov["evaluations"] = cov["evaluations"] + sweep_info["constructor_calls"]
     if evidence_extra:
         cov.update(evidence_extra)
     ev = {"tier": T, "seed": seed(), "level": "model_checking", "coverage": cov,
@@ -133,7 +171,7 @@ def variant_reject(msgs):
 def check_C01():
     q = tier() == "quick"
     sizes = {"int": 70, "float": 50, "string": 70, "any": 40} if q else {"int": 400, "float": 300, "string": 400, "any": None}
-    return run_direct_property("C01", {"try_new", "new"}, sizes, 60 if q else 400, False, const_twins=True,
+    return run_direct_property("C01", {"try_new", "new"}, sizes, 60 if q else 400, False, const_twins=True, sweeps=True,
                                evidence_extra={"twins": "every third integer/float declaration also as a `const_fn` twin (custom functions as `const fn`), driven at run time and "
                                                "evaluated by rustc's compile-time interpreter in `const` items on the bound neighbourhood; the `any` family includes the generic Nt<T: Ord>(Vec<T>)"})
 
